@@ -23,6 +23,14 @@ function in generation order with its label, entry stack guard (constant include
 and returns; comment lines dropped -- is compared LINE BY LINE, labels included, with the model's
 `state_section` and `lower_program`.
 
+BEHAVIOUR (the statement of the program theorem, run): for a sample of the programs, argument
+values and stack sizes, hidc's output is assembled (tools/sasm.py) and run on the verified VM
+(ocaml/hidvm), and the output bytes and end flags (win | division_by_zero, error |
+stack_overflow, error) are compared with what the extracted SOURCE SEMANTICS (LowerStmtSem.icall,
+the interpreter proved sound for callf, with its stack accounting) computes on the checked trees.
+Only runs the program theorem covers are compared: the static check run_ok_b holds (scoping, literals
+that are words at this word size, sizes) and the interpreter ends within its fuel.
+
 Stand-alone:  python tools/corr_lowerstmt.py --tier quick --seed 0
 """
 import argparse, collections, json, os, random, shutil, subprocess, sys, time
@@ -30,13 +38,15 @@ sys.path.insert(0, os.path.dirname(os.path.abspath(__file__)))
 from common import REPO, VERIF, CannotTranslate, write_if_changed
 
 COQ_DEPS = ['Sphinx/Machine.vo', 'Sphinx/AsmText.vo', 'Sphinx/WordLemmas.vo', 'Gen/GenTables.vo', 'Gen/GenEscape.vo',
-            'Codegen/OpTables.vo']
-COQ_FILES = ['Codegen/LowerBoolModel.v', 'Codegen/LowerStmtModel.v', 'Extract/ExtractLowerStmt.v']
+            'Codegen/OpTables.vo', 'Codegen/DecimalSpec.vo', 'Codegen/StdlibBool.vo', 'Codegen/LowerBoolProofs.vo']
+COQ_FILES = ['Codegen/LowerBoolModel.v', 'Codegen/LowerStmtModel.v', 'Codegen/LowerStmtSem.v', 'Extract/ExtractLowerStmt.v']
 RULE = ('for every generated F_stmt program and word size, the text hidc emits from `%section state` to the start '
         'of the runtime library (state section; every generated function in generation order: label, entry stack '
         'guard with its constant, statements, returns; comments dropped) equals, line for line and label for label, '
         'print_dline of the extracted Coq model state_section followed by print_aline of lower_program run on the '
-        'checked trees of the function bodies')
+        'checked trees of the function bodies; and for the sampled runs (arguments, stack sizes) the output bytes '
+        'and end flags of hidc\'s assembled output on the verified VM equal those the extracted source semantics '
+        '(icall) computes')
 STACK = 64
 
 CMP = {'lt': '<', 'gt': '>', 'le': '<=', 'ge': '>=', 'eq': '==', 'ne': '!='}
@@ -690,6 +700,8 @@ def shrink_candidates(ss):
 
 def prog_candidates(prog):
     """smaller programs: shrink one function body (the last `return e;` of an int function stays)"""
+    for k in range(len(prog) - 1, 0, -1):                             # a helper nobody calls can go
+        yield prog[:k] + prog[k + 1:]
     for k in range(len(prog) - 1, -1, -1):
         name, rt, params, ss = prog[k]
         for q in shrink_candidates(ss):
@@ -815,6 +827,47 @@ def directed():
     return progs
 
 
+# ------------------------------------------------------------------------------------ behaviour
+END_FLAGS = {'ret': ['win'], 'fault division_by_zero': ['division_by_zero', 'error'],
+             'fault stack_overflow': ['stack_overflow', 'error']}
+ARGV = [0, 1, 2, 3, 5, 7, -1, -2, 10, 100, 255, -128, 32767]
+
+
+def behaviour(exe, rng, picks, log):
+    """picks: [(k, prog, w, model_line)] -> (runs compared, skipped, [disagreement])"""
+    import hidrun
+    meta = []
+    for (k, prog, w, mline) in picks:
+        args = tuple(rng.choice(ARGV) for _ in range(3))
+        sx = mline.split(' ', 3)[3]
+        for stack in (STACK, rng.randint(4, 24)):
+            meta.append((prog, w, stack, args, 'run %d %d 1500 (args %s) %s' % (w, stack, ' '.join(str(a) for a in args), sx)))
+    outs = model_all(exe, [m[4] for m in meta])                 # the source semantics first: it selects the runs
+    compared, skipped, bad, todo, ends = 0, collections.Counter(), [], [], collections.Counter()
+    for m, mo in zip(meta, outs):
+        if mo in ('nofuel', 'unchecked') or mo.startswith('ERROR'):
+            skipped[mo.split()[0]] += 1
+        else:
+            todo.append((m, mo))
+    runs = hidrun.run_cases([hidrun.Case(program_src(prog), tuple(str(a) for a in args), w, stack, False, 300_000)
+                             for ((prog, w, stack, args, _), _) in todo])
+    for ((prog, w, stack, args, _), mo), r in zip(todo, runs):
+        parts = mo.split('\t')
+        want = (END_FLAGS[parts[0]], bytes(int(x) for x in parts[1:]))
+        ends[parts[0]] += 1
+        if r.status != 'ran':
+            got = (r.status + ': ' + str(r.detail)[:80], b'')
+        else:
+            got = ([f for f in r.flags], r.out) if r.kind == 'ABSORBED' else (r.kind, r.out)
+        compared += 1
+        if got != want:
+            bad.append({'input': program_src(prog).strip(), 'w': w, 'model': '%s %r' % want, 'impl': '%s %r' % got,
+                        'detail': {'where': 'behaviour', 'stack': stack, 'args': list(args)},
+                        'original': program_src(prog).strip()[:600]})
+    skipped['_ends'] = dict(ends)
+    return compared, skipped, bad
+
+
 # ------------------------------------------------------------------------------------ run
 def run(tier, seed, workdir):
     t0 = time.time()
@@ -877,9 +930,18 @@ def run(tier, seed, workdir):
                                   'impl': '%s: %s' % (rs[0], rs[1]) if rs[0] != 'ok' else '%s: %s' % (r[0], r[1]),
                                   'detail': {'where': 'compilation'}, 'original': program_src(progs[k]).strip()[:600]})
         seen_bad.add(k)
-    dist['programs_disagreeing'] = len(seen_bad)
+    # behaviour of a sample of the programs on the verified VM against the extracted source semantics
+    nb = 300 if quick else 1500
+    pool = [(k, progs[k], w, r[3]) for (k, w, r) in jobs if w in (2, 4)]
+    picks = [pool[i] for i in sorted(rng.sample(range(len(pool)), min(nb, len(pool))))]
+    bcomp, bskip, bbad = behaviour(exe, rng, picks, log)
+    for d in bbad:
+        if len(disagreements) < 8:
+            disagreements.append(d)
+    dist['behaviour'] = {'runs_compared': bcomp, 'endings': bskip.pop('_ends', {}), 'skipped': dict(bskip), 'disagreeing': len(bbad)}
+    dist['programs_disagreeing'] = len(seen_bad) + len(bbad)
     return {
-        'evaluations': len(jobs),
+        'evaluations': len(jobs) + bcomp,
         'distinct_nontrivial': len(distinct),
         'rule': RULE,
         'samples': samples,
